@@ -4313,7 +4313,12 @@ class NameCheckVisitor(node_visitor.ReplacingNodeVisitor):
                 self._generic_visit_list(node.body)
         self._handle_loop_else(node.orelse, body_scope, always_entered)
 
-        if always_entered and all(LEAVES_LOOP not in scope for scope in loop_scopes):
+        if (
+            always_entered
+            # only function scopes track what leaves the loop
+            and loop_scopes is not None
+            and all(LEAVES_LOOP not in scope for scope in loop_scopes)
+        ):
             # This means the code following the loop is unreachable.
             self._set_name_in_scope(LEAVES_SCOPE, node, AnyValue(AnySource.marker))
 
